@@ -103,12 +103,17 @@ func DecodeUTF16(b []byte) string {
 		ret   = &bytes.Buffer{}
 	)
 
-	lb := len(b)
+	// ignore a trailing odd byte and decode the units together so that
+	// surrogate pairs are combined into one code point
+	lb := len(b) - len(b)%2
+	u16s = make([]uint16, 0, lb/2)
 
 	for i := 0; i < lb; i += 2 {
-		u16s[0] = uint16(b[i]) + (uint16(b[i+1]) << 8)
-		r := utf16.Decode(u16s)
-		n := utf8.EncodeRune(b8buf, r[0])
+		u16s = append(u16s, uint16(b[i])+(uint16(b[i+1])<<8))
+	}
+
+	for _, r := range utf16.Decode(u16s) {
+		n := utf8.EncodeRune(b8buf, r)
 		ret.Write(b8buf[:n])
 	}
 
